@@ -40,4 +40,59 @@ def kahn_diff(ctx, replay=None):
             "coverage": {"kahn_graphs": len(cases), "kahn_cyclic": cyc, "programs": len(cases)}}
 
 
-explore, search, replay = make({"C07"}, user_q=(50, 10, 40), user_t=(1200, 300, 1200), extra=kahn_diff)
+def real_thread_runs(ctx):
+    """Real threads, bundled progress observers (they start an update thread): after run returns or raises, every thread
+    it created has exited and none of the plan's functions is still executing."""
+    import contextlib
+    import io
+    import threading
+
+    import uberjob
+    from harness import plans
+    from uberjob.progress import console_progress, html_progress, null_progress
+    rng = random.Random(ctx.seed * 5 + 2)
+    n = 12 if ctx.tier == "quick" else 150
+    viol = []
+    done = 0
+    import tempfile
+    for _ in range(n):
+        spec = plans.gen_spec(rng, nmax=7)
+        calls = [nd["id"] for nd in spec["nodes"] if nd["kind"] == "call"]
+        failing = {i: rng.choice(["Failure", "BaseFailure", "SystemExit"]) for i in rng.sample(calls, min(len(calls), rng.choice([0, 0, 1, 2])))}
+        rec = plans.Rec()
+        plan, N, _ = plans.build(spec, rec, failing)
+        base = set(threading.enumerate())
+        with tempfile.TemporaryDirectory() as d:
+            prog = rng.choice([console_progress, html_progress(d + "/p.html"), null_progress, (console_progress, html_progress(d + "/q.html"))])
+            out = [N[i] for i in rng.sample(list(N), min(len(N), 2))]
+            buf = io.StringIO()
+            try:
+                with contextlib.redirect_stdout(buf), contextlib.redirect_stderr(buf):
+                    uberjob.run(plan, output=out, max_workers=rng.choice([1, 2, 5]), max_errors=rng.choice([0, 1, None]),
+                                scheduler=rng.choice(["default", "random"]), progress=prog)
+            except BaseException:      # noqa: BLE001
+                pass
+        left = [t for t in threading.enumerate() if t not in base and t.is_alive()]
+        started = sum(1 for e in rec.events if e[0] == "start")
+        finished = sum(1 for e in rec.events if e[0] in ("end", "fail"))
+        done += 1
+        if left:
+            viol.append({"property": "C07", "what": f"threads created by run are still alive after it returned: {[t.name for t in left]}",
+                         "user_case": {"spec": spec, "output": None, "workers": 2, "max_errors": 0, "scheduler": "default", "failing": {}}, "seed": 0})
+        if started != finished:
+            viol.append({"property": "C07", "what": f"{started - finished} call(s) still executing when run returned",
+                         "user_case": {"spec": spec, "output": None, "workers": 2, "max_errors": 0, "scheduler": "default", "failing": {}}, "seed": 0})
+        if viol:
+            break
+    return {"violations": viol, "disagreements": [], "coverage": {"real_thread_runs_with_observers": done}}
+
+
+def extras(ctx, replay=None):
+    a = kahn_diff(ctx)
+    b = real_thread_runs(ctx)
+    cov = dict(a["coverage"])
+    cov.update(b["coverage"])
+    return {"violations": a["violations"] + b["violations"], "disagreements": a["disagreements"] + b["disagreements"], "coverage": cov}
+
+
+explore, search, replay = make({"C07"}, user_q=(50, 10, 40), user_t=(1200, 300, 1200), extra=extras)
